@@ -513,6 +513,43 @@ fn shard(ctx: &mut ShardCtx, mode: &'static str, quick: u64, thorough: u64) {
         let s = super::c01::open_schema_change(ctx, 0);
         ctx.search("crash_history", s, n / 16 + 1, &schema_crash);
     }
+    if mode == "c15" || mode == "c11" {
+        // name reuse: a table with an index (declared, or created later under a name of its own) is dropped and
+        // created again under the same name, the index too; rows go in before and after
+        let excluded: Vec<String> = ctx.excludes.keys().cloned().collect();
+        let m = mode.to_string();
+        let strat = (prop::collection::vec((any::<bool>(), any::<bool>(), prop::collection::vec(0u8..12, 0..3), 0u8..3), 2..4), prop::collection::vec(0u8..12, 1..4)).prop_map(move |(rounds, last)| {
+            let row = |v: u8| vec![AVal::Pool(v), AVal::Pool(v), AVal::Pool(v), AVal::Pool(v), AVal::Pool(v)];
+            let ins = |v: u8| Step::Auto(AStmt::Insert { t: 0, rows: vec![row(v)], partial: false });
+            let mut steps = vec![];
+            for (declared, index_first, rows, between) in rounds {
+                steps.push(Step::Auto(AStmt::Create { name: 0, cols: vec![ACol { ty: 0, not_null: false, default: None }, ACol { ty: 0, not_null: false, default: None }], pk: None, uniq: if declared { Some(0) } else { None } }));
+                if !declared && index_first {
+                    steps.push(Step::Auto(AStmt::CreateIndex { t: 0, col: 0 }));
+                }
+                for v in &rows {
+                    steps.push(ins(*v));
+                }
+                if !declared && !index_first {
+                    steps.push(Step::Auto(AStmt::CreateIndex { t: 0, col: 0 }));
+                }
+                steps.push(Step::Auto(AStmt::Drop { t: 0 }));
+                match between {
+                    1 => steps.push(Step::Vacuum),
+                    2 => steps.push(Step::Reopen(0)),
+                    _ => {}
+                }
+            }
+            steps.push(Step::Auto(AStmt::Create { name: 0, cols: vec![ACol { ty: 0, not_null: false, default: None }, ACol { ty: 0, not_null: false, default: None }], pk: None, uniq: None }));
+            steps.push(Step::Auto(AStmt::CreateIndex { t: 0, col: 0 }));
+            for v in &last {
+                steps.push(ins(*v));
+            }
+            steps.push(ins(last[0]));
+            HCase { mode: m.clone(), cfg: Cfg::default(), reopen_cfgs: vec![], steps, excluded: excluded.clone(), quiet: false }
+        });
+        ctx.search("history", strat, n / 16 + 1, &run);
+    }
     if mode == "c13" {
         // update/vacuum cycles on a few rows: contents stay right, storage stays bounded
         let excluded: Vec<String> = ctx.excludes.keys().cloned().collect();
